@@ -57,13 +57,18 @@ def step_cases(tier):
         for T in ('float', 'double'):
             sc = G.scalar(T)
             for fn, up in (('nextFloat', True), ('prevFloat', False), ('next_float', True), ('prev_float', False)):
-                shapes = [(0, None)] + [(L_, None) for L_ in ((1, 4) if tier == 'quick' else (1, 2, 3, 4))] + [(0, 3), (2, 3)]
+                shapes = [(0, None)] + [(L_, None) for L_ in ((1, 4) if tier == 'quick' else (1, 2, 3, 4))] + [(0, 3), (2, 3), (2, -3), (3, -2)]
                 for L_, n in shapes:
                     ty = sc if L_ == 0 else G.vec(L_, T)
-                    call = '%s(*x%s)' % (fn, '' if n is None else ', %d' % n)
-                    k = K('%s_%s_%s_%s%s' % (cfg.name, fn, ty.tag if L_ else sc.tag, 's' if L_ == 0 else 'v', '' if n is None else '_n%d' % n),
+                    percomp = n is not None and n < 0           # the overload that takes one step count per component (a vector of ints)
+                    if percomp:
+                        n = -n
+                        call = '%s(*x, glm::vec<%d, int, glm::defaultp>(%d))' % (fn, L_, n)
+                    else:
+                        call = '%s(*x%s)' % (fn, '' if n is None else ', %d' % n)
+                    k = K('%s_%s_%s_%s%s' % (cfg.name, fn, ty.tag if L_ else sc.tag, 's' if L_ == 0 else 'v', '' if n is None else '_n%s%d' % ('v' if percomp else '', n)),
                           [Par('o', ty, False), Par('x', ty)], '*o = %s;' % call, cfg)
-                    name = '%s(%s%s)@%s' % (fn, T if L_ == 0 else 'vec%d<%s>' % (L_, T), '' if n is None else ',%d' % n, cfg.name)
+                    name = '%s(%s%s)@%s' % (fn, T if L_ == 0 else 'vec%d<%s>' % (L_, T), '' if n is None else (',ivec(%d)' % n if percomp else ',%d' % n), cfg.name)
 
                     def judge(ctx, k=k, ty=ty, up=up, n=n, name=name, fn=fn):
                         e = ctx.compile_error(k)
